@@ -145,7 +145,9 @@ func runC16(t *testing.T, tape *sim.Tape, tier string) *Outcome {
 	}
 	sort.Strings(lines)
 	if len(o.Viol) == 0 && len(hist) > 0 && len(hist) <= 48 {
+		busy.Store(false) // the linearizability search is real computation, not a simulated step: exempt from the stall watchdog
 		res := porcupine.CheckOperationsTimeout(wl.StringModel(), hist, 10*time.Second)
+		busy.Store(true)
 		switch res {
 		case porcupine.Illegal:
 			o.violate("c16:not-linearizable:"+store, "no sequential order of these commands explains the replies (store: %s):\n  %s", store, strings.Join(lines, "\n  "))
